@@ -189,7 +189,7 @@ pub fn gen_ctor(rng: &mut Rng, sw: &Swarm) -> Op {
             if rng.chance(1, 2) {
                 Op::new("u.pow2").dst(d).n(gen_bits(rng, sw.big) as i64)
             } else {
-                Op::new("u.sparse").dst(d).n(rng.next() as i64).m(rng.below(4) as i64).form(rng.below(2))
+                Op::new("u.sparse").dst(d).n(rng.next() as i64).m(rng.below(8) as i64).form(rng.below(2))
             }
         }
         _ => Op::new("i.bytes_lit").dst(d).form(rng.below(2)).lit(gen_lit(rng, sw.big)),
